@@ -274,6 +274,17 @@ theorem ublen_invariant_pseudo_rects (pieces : List Nat) (ublen : Nat) (hu : ubl
 one 12-byte header each; copy rectangles 16 bytes each) all fit -/
 example : appendAll 4 [12, 12, 12, 12, 16, 16] ≤ UPDATE_BUF_SIZE := by decide
 
+/-- `rfbSendCursorShape`: for every cursor size, client pixel size and encoding the shape (or the
+empty cursor sent instead of one that is too large) leaves `ublen ≤ UPDATE_BUF_SIZE`; the estimate
+is taken in the CLIENT's pixel size, which is what the image is written in -/
+theorem cursor_shape_ublen_invariant (ublen w h cbpp : Nat) (rich : Bool) (hu : ublen ≤ UPDATE_BUF_SIZE) :
+    cursorEmit ublen w h cbpp rich ≤ UPDATE_BUF_SIZE :=
+  cursorEmit_le ublen w h cbpp rich hu
+
+example : cursorEstimate 88 88 4 true ≤ UPDATE_BUF_SIZE ∧ cursorEstimate 89 89 4 true > UPDATE_BUF_SIZE := by decide
+/-- the seeded variant (estimate with the server's 2 bytes, image written with the client's 4) overflows -/
+example : cursorEstimate 124 124 2 true ≤ UPDATE_BUF_SIZE ∧ cursorWritten 124 124 4 true > UPDATE_BUF_SIZE := by decide
+
 /-- `rfbSendCopyRegion` with the flush check: any number of rectangles, `ublen` stays in range -/
 theorem copy_region_ublen_invariant (k ublen : Nat) (hu : ublen ≤ UPDATE_BUF_SIZE) :
     copyRegionChecked k ublen ≤ UPDATE_BUF_SIZE :=
